@@ -781,7 +781,11 @@ class Parser:
         raise BlockParseException(f'Expecting {s} got {self.current.tid}.', self.getline(), self.current.lineno, self.current.colno, self.lexer.getline(block_start.line_start), block_start.lineno, block_start.colno)
 
     def parse(self) -> CodeBlockNode:
-        block = self.codeblock()
+        try:
+            block = self.codeblock()
+        except RecursionError:
+            # The recursive descent ran into the interpreter's recursion limit.
+            raise ParseException('Expression is nested too deeply.', self.getline(), self.current.lineno, self.current.colno) from None
         try:
             self.expect('eof')
         except ParseException as e:
